@@ -817,6 +817,8 @@ class Interp:
         if isinstance(fn, (NamedTupleType, WeakRef)):
             return fn(*args, **kwargs)
         if isinstance(fn, Obj):
+            if "__call__" in fn.fields:
+                return self.call(fn.fields["__call__"], args, kwargs)
             cv = fn.cls
             if cv is not None:
                 owner, ent = self.class_lookup(cv, "__call__")
